@@ -46,6 +46,8 @@ _STATE = {
     'svscan': 0,
     'orig': {},
     'faults': {'svscan': 0, 'service': 0, 'midsync_unlink': 0},
+    'midsync_actor': None,   # [k, fn]: fn() runs right before the k-th file-system look of a synchronisation
+    'sync_looks': 0,         # file-system looks (exists / islink / readlink ...) of the current synchronisation
     'fault_hits': [],        # (target, context) of the current step
     'monitor_watcher': None,  # the DirWatcher of the live monitor
     'tomb_exec': {},         # (id, timestamp) -> number of executions
@@ -91,6 +93,8 @@ class FakeRuntime:
 
 def _mk_method_wrapper(name, orig):
     def wrapper(self_, *args, **kwargs):
+        if name == '_synchronize':
+            _STATE['sync_looks'] = 0
         _STATE['stack'].append(name)
         _STATE['calls'].append((name, args[0] if args else None))
         try:
@@ -177,6 +181,49 @@ def install():
             return res
     appcfgmgr.glob = _Glob()
 
+    # the manager is one process among several: every look it takes at the file system (os.path.exists / islink /
+    # lexists / isdir, os.readlink, os.stat / lstat, os.listdir of the module's `os` global) inside a synchronisation
+    # is a point at which another actor's real operation can have happened.  The proxy forwards every call to the
+    # real os; with an actor armed it runs that actor right BEFORE the k-th look of the synchronisation.
+    import os as _os
+
+    def _look(fn, path):
+        armed_ = _STATE['midsync_actor']
+        if '_synchronize' not in _STATE['stack'] or _STATE.get('in_midsync_actor'):
+            return
+        _STATE['sync_looks'] += 1
+        if armed_ is None or armed_[0] != _STATE['sync_looks']:
+            return
+        _STATE['midsync_actor'] = None
+        _STATE['in_midsync_actor'] = True
+        try:
+            _STATE['fault_hits'].append(('midsync_actor', tuple(_STATE['stack']), fn, str(path)))
+            armed_[1]()
+        finally:
+            _STATE['in_midsync_actor'] = False
+
+    def _looking(fn, real):
+        def call(path, *args, **kwargs):
+            _look(fn, path)
+            return real(path, *args, **kwargs)
+        call.__name__ = fn
+        return call
+
+    class _OsPath:
+        def __getattr__(self, name):
+            return getattr(_os.path, name)
+    for fn in ('exists', 'lexists', 'islink', 'isdir', 'isfile'):
+        setattr(_OsPath, fn, staticmethod(_looking('os.path.' + fn, getattr(_os.path, fn))))
+
+    class _Os:
+        path = _OsPath()
+
+        def __getattr__(self, name):
+            return getattr(_os, name)
+    for fn in ('readlink', 'stat', 'lstat', 'listdir'):
+        setattr(_Os, fn, staticmethod(_looking('os.' + fn, getattr(_os, fn))))
+    appcfgmgr.os = _Os()
+
     cls = appcfgmgr.AppCfgMgr
     for name in _WRAPPED:
         orig = getattr(cls, name)
@@ -246,6 +293,9 @@ def new_case():
     _STATE['faults']['svscan'] = 0
     _STATE['faults']['service'] = 0
     _STATE['faults']['midsync_unlink'] = 0
+    _STATE['midsync_actor'] = None
+    _STATE['sync_looks'] = 0
+    _STATE['in_midsync_actor'] = False
     _STATE['tomb_exec'].clear()
     _STATE['monitor_watcher'] = None
     reset_logs()
@@ -258,6 +308,11 @@ def arm_fault(target, count):
 
 def armed(target):
     return _STATE['faults'][target]
+
+
+def arm_midsync_actor(k, fn):
+    """fn() runs right before the k-th file-system look of the next synchronisation (k = 0: disarm)."""
+    _STATE['midsync_actor'] = [k, fn] if k else None
 
 
 def fault_hits():
